@@ -99,6 +99,8 @@ where S: DataMut<Elem = i64>, D: Dimension + RemoveAxis {
 
 fn mut_i64_1d<S>(mk: &mut dyn FnMut() -> ArrayBase<S, Ix1>, out: &mut Vec<Item>) where S: DataMut<Elem = i64> {
     let n = mk().len();
+    // Edges built from an owned copy-free array of this representation (only its logical elements count)
+    out.push(("Edges::from_array1", "exact", { let e = Edges::from(mk().into_owned()); e.iter().cloned().collect() }));
     if n == 0 { return; }
     out.push(("get_from_sorted_mut", "exact", vec![mk().get_from_sorted_mut(n / 2)]));
     let idx = array![0usize, n - 1, n / 2, n / 3];
